@@ -179,7 +179,10 @@ func c06Family(c *vlib.Ctx) []CfgLit {
 		"http://[::1]", "http://[::1]:9090", "http://[2001:db8::1]:*", "https://a.b.", "*", "https://a.b:8443",
 		// IPv6 literals whose texts share tails that end inside a hextet (radix fragments without a colon)
 		"http://[fe80::1]", "http://[fd80::1]:9090", "http://[1:db8::1]:*", "http://[::21]", "http://[1::1]", "http://xa.b", "https://*.xa.b",
-		"https://xn--bcher-kva.example:49152", "app+v1.0://host-1.internal:10000", "https://*.host-1.internal:*"}
+		"https://xn--bcher-kva.example:49152", "app+v1.0://host-1.internal:10000", "https://*.host-1.internal:*",
+		// a sibling host that differs in the byte left of a shared suffix (- sorts before .); schemes whose byte order and
+		// length order disagree
+		"https://c-a.b", "wss://a.b", "capacitor://a.b", "http://a.b"}
 	olists := lists(oatoms, vlib.Pick(c, 2, 3))[1:]
 	var out []CfgLit
 	// A: every origin list in four contexts
